@@ -740,9 +740,10 @@ def m_insert(ex, st, lv, recv, args, e):
         raise Undecided('insert at a position other than 0 (line %d)' % e.lineno)
     x = ex.coerce(st, args[1], recv.ty.elem, e, 'insert-elem-type')
     ty = recv.ty
-    j = z3.Int('j!ins')
-    arr = z3.Lambda([j], z3.If(j == 0, x.t, L_get(ty, recv.t, j - 1)))
-    ex.lv_write(st, lv, V(ty, L_mk(ty, L_len(ty, recv.t) + 1, arr)))
+    out = L_cons(ty, x.t, recv.t)
+    for f in L_cons_facts(ty, x.t, recv.t):
+        st.assume(f)
+    ex.lv_write(st, lv, V(ty, out))
     return vnone()
 
 
